@@ -891,7 +891,7 @@ pub struct Scale {
     pub cap: usize,
 }
 
-pub const G7_FAMILIES: usize = 29;
+pub const G7_FAMILIES: usize = 37;
 
 /// Adversarial scaling family `fam` at size about `n` bytes.
 pub fn g7(fam: usize, n: usize) -> Scale {
@@ -1175,6 +1175,83 @@ pub fn g7(fam: usize, n: usize) -> Scale {
             cfg = 0;
             cap = 4;
         }
+        28 => {
+            name = "long_method_token";
+            b = rep(b"M", n);
+            b.extend_from_slice(b" / HTTP/1.1\r\n\r\n");
+            entry = Entry::R1;
+            cfg = 0;
+            cap = 4;
+        }
+        29 => {
+            name = "empty_value_headers_lf_only";
+            b = req.to_vec();
+            b.extend(rep(b"a:\n", n));
+            b.extend_from_slice(b"\n");
+            entry = Entry::R3;
+            cfg = 0;
+            cap = n / 3 + 2;
+        }
+        30 => {
+            name = "value_of_colons_and_percent";
+            b = req.to_vec();
+            b.extend_from_slice(b"Name: ");
+            b.extend(rep(b":%:;,=", n));
+            b.extend_from_slice(b"\r\n\r\n");
+            entry = Entry::R1;
+            cfg = 0;
+            cap = 4;
+        }
+        31 => {
+            name = "target_percent_and_obs_text";
+            b = b"GET /".to_vec();
+            b.extend(rep("%C3%A9\u{e9}\u{20ac}".as_bytes(), n));
+            b.extend_from_slice(b" HTTP/1.1\r\n\r\n");
+            entry = Entry::R4;
+            cfg = MSREQ;
+            cap = 4;
+        }
+        32 => {
+            name = "long_reason_obs_text";
+            b = b"HTTP/1.1 200 ".to_vec();
+            b.extend(rep(b"r\xe9\xff ", n));
+            b.extend_from_slice(b"\r\n\r\n");
+            entry = Entry::S4;
+            cfg = MSRESP;
+            cap = 4;
+        }
+        33 => {
+            name = "long_name_long_value_pairs";
+            b = resp.to_vec();
+            let mut unit = Vec::new();
+            unit.extend(std::iter::repeat(b'N').take(120));
+            unit.extend_from_slice(b": ");
+            unit.extend(std::iter::repeat(b'v').take(300));
+            unit.extend_from_slice(b"\r\n");
+            b.extend(rep(&unit, n));
+            b.extend_from_slice(b"\r\n");
+            entry = Entry::S1;
+            cfg = 0;
+            cap = n / 400 + 2;
+        }
+        34 => {
+            name = "spaces_after_name_then_ignored";
+            b = resp.to_vec();
+            b.extend(rep(b"Name \t x\r\n", n));
+            b.extend_from_slice(b"\r\n");
+            entry = Entry::S2;
+            cfg = SA | IGNRESP;
+            cap = 4;
+        }
+        35 => {
+            name = "invalid_utf8_long_target_err";
+            b = b"GET /".to_vec();
+            b.extend(rep(b"\xc3\xa9\xe2\x82", n));
+            b.extend_from_slice(b" HTTP/1.1\r\n\r\n");
+            entry = Entry::R1;
+            cfg = 0;
+            cap = 4;
+        }
         _ => {
             name = "fold_then_ignored";
             b = resp.to_vec();
@@ -1314,6 +1391,20 @@ fn g9_folds_and_families(kind: Kind, level: usize, f: &mut dyn FnMut(&[u8])) {
                 m.extend_from_slice(tail);
                 f(&m);
             }
+        }
+    }
+    // many header lines (indices / counts beyond any fixed small array size)
+    if kind != Kind::Hdr {
+        let nmax = if level == 0 { 40 } else if level == 1 { 140 } else { 300 };
+        let mut nh = 1;
+        while nh <= nmax {
+            let mut m = line.to_vec();
+            for i in 0..nh {
+                m.extend_from_slice(format!("h{}: v{}\r\n", i, i % 7).as_bytes());
+            }
+            m.extend_from_slice(b"\r\n");
+            f(&m);
+            nh += if nh < 70 { 1 } else { 7 };
         }
     }
     let sizes: &[usize] = if level == 0 { &[64] } else if level == 1 { &[64, 300, 1500] } else { &[64, 300, 1500, 6000] };
